@@ -77,6 +77,8 @@ class Exec(ExprMixin, CallMixin, StmtMixin):
         argnames = [a.arg for a in self.fn.args.args] + [a.arg for a in self.fn.args.kwonlyargs]
         if self.fn.args.vararg is not None and self.fn.args.vararg.arg in con.params:
             argnames.append(self.fn.args.vararg.arg)  # *args modelled as one opaque tuple value
+        if self.fn.args.kwarg is not None and self.fn.args.kwarg.arg in con.params:
+            argnames.append(self.fn.args.kwarg.arg)  # **kwargs modelled as a dict value
         for n in con.params:
             if n not in argnames and not n.startswith("_ghost"):
                 raise Unsupported("contract parameter %s is not a parameter of %s" % (n, con.qualname), self.fn)
@@ -96,7 +98,7 @@ class Exec(ExprMixin, CallMixin, StmtMixin):
                 st.assume(f)
             if isinstance(ty, TObj):
                 self.param_objs.add(n)
-        if (self.fn.args.vararg and self.fn.args.vararg.arg not in con.params) or self.fn.args.kwarg:
+        if (self.fn.args.vararg and self.fn.args.vararg.arg not in con.params) or (self.fn.args.kwarg and self.fn.args.kwarg.arg not in con.params):
             if not getattr(con, "ignore_varargs", False):
                 raise Unsupported("*args/**kwargs", self.fn)
         pre_env = dict(st.env)
